@@ -1,3 +1,4 @@
+import Heathcliff.Proofs.C07S
 import Heathcliff.Proofs.C07L
 
 /- Property theorems only (statements verbatim; proofs are the helper lemmas of Heathcliff/Proofs). -/
@@ -35,5 +36,48 @@ theorem budget_add_k (bfv : Bool) {t Q n : Nat} (hQ : 0 < Q) (phs : List (Array 
 /-- EXACTNESS BELOW THE THRESHOLD (BFV): if t·x = Q·m' + ν with 2|ν| < Q then rounding t·x/Q gives m' -/
 theorem exact_below_threshold {t Q : Nat} (hQ : 0 < Q) {x m' ν : Int} (h : t * x = Q * m' + ν) (hν : 2 * ν.natAbs < Q) :
     Spec.roundDiv (t * x) Q = m' := HC.exact_below_threshold hQ h hν
+
+
+/-! ### the model's noise budget = Spec.budget of the exact phase (all sizes), refusals, positive budget ⇒ exact decoding
+    (statements, hypothesis bundles and non-vacuity instances: Heathcliff/Proofs/C07S.lean, section "Property theorems") -/
+
+/-- NOISE BUDGET, size 2: on a coefficient-form ciphertext (c0, c1) of a BFV or BGV level the model's `noiseBudget` succeeds and
+    returns exactly the budget of the definition, `Spec.budget`, evaluated on the exact big-integer phase `Spec.phase` -/
+theorem noiseBudget_size2_eq_spec : type_of% @HC.noiseBudget_size2_eq_spec := @HC.noiseBudget_size2_eq_spec
+
+/-- the same, with the hypothesis bundle discharged by the constructor: `l.tool.baseQ` is what `RNSBase.new` returns on the
+    level's moduli (this is how `RNSTool.new` is fed) -/
+theorem noiseBudget_size2_eq_spec_of_new : type_of% @HC.noiseBudget_size2_eq_spec_of_new := @HC.noiseBudget_size2_eq_spec_of_new
+
+/-- NOISE BUDGET, any size ≥ 3 (coefficient form): the model's `noiseBudget` returns the budget of the definition on the
+    exact phase Σ c_k s^k -/
+theorem noiseBudget_gen_eq_spec : type_of% @HC.noiseBudget_gen_eq_spec := @HC.noiseBudget_gen_eq_spec
+
+/-- NOISE BUDGET, any size ≥ 2 -/
+theorem noiseBudget_eq_spec : type_of% @HC.noiseBudget_eq_spec := @HC.noiseBudget_eq_spec
+
+/-- REFUSAL: a ciphertext in NTT form -/
+theorem noiseBudget_refuses_ntt : type_of% @HC.noiseBudget_refuses_ntt := @HC.noiseBudget_refuses_ntt
+
+/-- REFUSAL: CKKS levels -/
+theorem noiseBudget_refuses_ckks : type_of% @HC.noiseBudget_refuses_ckks := @HC.noiseBudget_refuses_ckks
+
+/-- REFUSAL: fewer than two polynomials -/
+theorem noiseBudget_refuses_small : type_of% @HC.noiseBudget_refuses_small := @HC.noiseBudget_refuses_small
+
+/-- a positive budget puts every noise value strictly below Q/2 -/
+theorem budget_pos_noise_lt : type_of% @HC.budget_pos_noise_lt := @HC.budget_pos_noise_lt
+
+/-- MONOTONICITY COROLLARY (BFV): with a positive budget every coefficient splits as t·x = Q·m' + ν with ν the measured noise,
+    2|ν| < Q, and rounding t·x/Q returns the noiseless message m' -/
+theorem budget_pos_bfv_round : type_of% @HC.budget_pos_bfv_round := @HC.budget_pos_bfv_round
+
+/-- BFV decoding under a positive budget: for ANY message/noise splitting t·x_c = Q·m_c + e_c with 2|e_c| < Q of the phase
+    coefficients, the decoded coefficient is m_c mod t; and such a splitting exists for every coefficient (`budget_pos_bfv_round`) -/
+theorem budget_pos_bfvDecode : type_of% @HC.budget_pos_bfvDecode := @HC.budget_pos_bfvDecode
+
+/-- model-level corollary: when the MODEL reports a positive budget on a BFV ciphertext (c0, c1), exact decoding of the phase
+    returns the message part of every coefficient, and every noise value is below Q/2 -/
+theorem noiseBudget_pos_bfvDecode : type_of% @HC.noiseBudget_pos_bfvDecode := @HC.noiseBudget_pos_bfvDecode
 
 end HC.C07
